@@ -650,6 +650,55 @@ def run(ctx: Ctx) -> Outcome:
             out.find("word_wrap|words-changed", f"word_wrap({text!r}, {width}) -> {real!r}", {"kind": "wrap", "text": text, "width": width})
     dist["wrap_cases"] = len(wrap_reqs)
 
+    # ---- render_hbounded_lines (horizontal + vertical overflow of all labels of a builder) against `renderLabels`
+    from capellambse.svg import drawing as sdrawing
+
+    def label_cands(text):
+        c = {"...", ""}
+        for ln in text.splitlines():
+            ws = ln.split()
+            lead = ln[: len(ln) - len(ln.lstrip())]
+            for a in range(len(ws)):
+                for b in range(a + 1, len(ws) + 1):
+                    j = " ".join(ws[a:b])
+                    c |= {j, lead + j, " " + j, j + "...", lead + j + "...", " " + j + "..."}
+            c |= {ln, ln.lstrip(), lead + "...", ln + "..."}
+        return c
+
+    label_reqs, label_impl = [], []
+    for i in range(ctx.pick(250, 2500)):
+        nlab = ctx.rng.choice([1, 1, 1, 2, 3])
+        texts = [gen_label(ctx.rng, ctx.rng.randint(1, 25)) if ctx.rng.random() < 0.7 else
+                 " ".join(ctx.rng.choice(["ab", "cde", "Wwwwwwwwwwwwwwwwwwwwwwwwwwwwwwwwww", "i", "x-y", "•", "-"]) for _ in range(ctx.rng.randint(1, 9)))
+                 + ctx.rng.choice(["", "\n", "\n\nzz", " \n  indented line"]) for _ in range(nlab)]
+        rect_w = ctx.rng.choice([-5, 0, 3, 20, 21, 22, 40, 80, 148, 1500]) + ctx.rng.choice([0, 0, 0.5])
+        rect_h = ctx.rng.choice([-1, 0, 5, 14, 15, 16, 30, 31, 45, 69, 200, float("inf")])
+        render_icon = ctx.rng.random() < 0.5
+        b = sdrawing.LabelBuilder(rect_w, rect_h, [{"text": t_} for t_ in texts], None, None, icon=render_icon)
+        try:
+            real = list(sdrawing.render_hbounded_lines(b, render_icon).lines)
+        except AssertionError:
+            real = "AssertionError"
+        cands = set()
+        for t_ in texts:
+            cands |= label_cands(t_)
+        if real != "AssertionError":
+            cands |= set(real)
+        spaces = "".join(sorted({c for t_ in texts for c in t_ if c.isspace()} | {" "}))
+        hval = 10 ** 9 if rect_h == float("inf") else rect_h
+        label_reqs.append({"op": "svg.label", "ext": ext_table(cands), "spaces": spaces, "labels": [t_.splitlines() for t_ in texts],
+                           "rectW": frac(rect_w), "rectH": frac(hval), "pad": frac(1 if render_icon else 0), "icon": frac(20 if render_icon else 0)})
+        label_impl.append((texts, (rect_w, rect_h, render_icon), real))
+        out.case(("label-lines", i, tuple(texts), rect_w, rect_h, render_icon), None)
+        # monitor, straight from the statement: the rendered words are, label by label, the label's words or a marked prefix
+        if real != "AssertionError":
+            problem = match_labels([w for ln in real for w in ln.split()], texts)
+            if problem:
+                out.find("render_hbounded_lines|label-text", f"labels {texts!r} in {rect_w}x{rect_h} icon={render_icon}: {problem}",
+                         {"kind": "label-lines", "texts": texts, "rect_w": rect_w, "rect_h": "inf" if rect_h == float("inf") else rect_h, "icon": render_icon})
+        dist[f"label_lines:{'assert' if real == 'AssertionError' else 'cut' if any(x.endswith('...') for x in real) else 'whole'}"] = \
+            dist.get(f"label_lines:{'assert' if real == 'AssertionError' else 'cut' if any(x.endswith('...') for x in real) else 'whole'}", 0) + 1
+
     # ---- model side
     if use_model:
         seq_answers = common.model(seq[0], driver="Svg")
@@ -672,6 +721,18 @@ def run(ctx: Ctx) -> Outcome:
                 out.hit("defs-model:" + b)
             out.extra["defs_sequence_cases"] = out.extra.get("defs_sequence_cases", 0) + 1
             out.extra["defs_sequence_max_children"] = max(out.extra.get("defs_sequence_max_children", 0), len(d["defs"]))
+        for (texts, par, real), ans in zip(label_impl, common.model(label_reqs, driver="Svg")):
+            m = ans.get("ok")
+            if m is None:
+                out.disagree("driver-error", {"labels": texts, "param": par}, real, ans)
+            elif "assert" in m:
+                if real != "AssertionError":
+                    out.disagree("label-lines", {"labels": texts, "param": par}, real, "AssertionError")
+                out.hit("label-model:assertion")
+            else:
+                if m["lines"] != real:
+                    out.disagree("label-lines", {"labels": texts, "param": par}, real, m["lines"])
+                out.hit("label-model:" + ("cut" if any(x.endswith("...") for x in m["lines"]) else "whole"))
         answers = common.model(requests + wrap_reqs + [{"op": "svg.dump-tables"}], driver="Svg")
         for (case, impl), ans in zip(pending, answers[: len(requests)]):
             m = ans.get("ok")
@@ -747,6 +808,18 @@ def replay(ctx: Ctx, case: dict) -> str | None:
         if [w for ln in real for w in ln.split()] != case["text"].split():
             return f"word_wrap({case['text']!r}, {case['width']}) -> {real!r} changes the words"
         return None
+    if case.get("kind") == "label-lines":
+        from capellambse.svg import drawing as sdrawing
+
+        rect_h = float("inf") if case["rect_h"] == "inf" else case["rect_h"]
+        b = sdrawing.LabelBuilder(case["rect_w"], rect_h, [{"text": t_} for t_ in case["texts"]], None, None, icon=case["icon"])
+        try:
+            real = list(sdrawing.render_hbounded_lines(b, case["icon"]).lines)
+        except AssertionError:
+            return None
+        print(f"replay: render_hbounded_lines({case['texts']!r}, {case['rect_w']}x{rect_h}, icon={case['icon']}) -> {real!r}")
+        problem = match_labels([w for ln in real for w in ln.split()], case["texts"])
+        return f"render_hbounded_lines: {problem}" if problem else None
     if case.get("kind") == "corpus":
         import capellambse
 
